@@ -470,4 +470,60 @@ theorem generated_stringContainsAny_eq (s : Bytes) (l : List Bytes) :
     simp only [List.find?, List.any]
     cases h : isInfix a s <;> simp [ih]
 
+/-- the `range` loop of `determineCurrentPriv` over the levels in whatever order the map iteration
+yields them, as translated from the current source -/
+theorem determine_loop (notContains : Level → List Bytes) (patMatch : Level → Bytes → Bool) (prompt : Bytes)
+    (lvs : List Level) (acc : List Bytes) (i : Int) :
+    Go.forRangeFrom (ρ := List Bytes × Go.Error) (fun _ priv possiblePrivs => (
+      if (Gen.Bodies.Priv.stringContainsAny prompt (notContains priv)) then (
+        .next possiblePrivs)
+      else (
+        let possiblePrivs := if (patMatch priv prompt) then (
+            let possiblePrivs := (possiblePrivs ++ [priv.name])
+            possiblePrivs)
+          else (
+            possiblePrivs)
+        .next possiblePrivs))) i lvs acc
+    = .fin (acc ++ (lvs.filter fun l => matchOf notContains patMatch l prompt).map (·.name)) := by
+  generalize hbody : (fun (_ : Int) (priv : Level) (possiblePrivs : List Bytes) => _) = body
+  have hstep : ∀ (i : Int) (l : Level) (acc : List Bytes), body i l acc
+      = .next (if matchOf notContains patMatch l prompt then acc ++ [l.name] else acc) := by
+    intro i l acc
+    subst hbody
+    simp only [generated_stringContainsAny_eq, matchOf]
+    by_cases h1 : ((notContains l).any (fun s => isInfix s prompt)) = true <;>
+      by_cases h2 : patMatch l prompt = true <;> simp [h1, h2]
+  clear hbody
+  induction lvs generalizing acc i with
+  | nil => simp [Go.forRangeFrom]
+  | cons l lvs ih =>
+    simp only [Go.forRangeFrom, hstep, List.filter]
+    cases h : matchOf notContains patMatch l prompt <;> simp [ih]
+
+/-- the body of `(*Driver).determineCurrentPriv` as the translator renders it from the current source,
+over ANY iteration order `o.lv L` of the level map: it returns the names `determineCurrent` returns
+(matcher = no not-contains string occurs in the prompt, and the pattern matches) and fails with
+`ErrPrivilegeError` exactly when there is none -/
+theorem generated_determineCurrentPriv_eq (notContains : Level → List Bytes) (patMatch : Level → Bytes → Bool)
+    (o : Orders) (L : Levels) (prompt : Bytes) :
+    Gen.Bodies.Priv.determineCurrentPriv (o.lv L) notContains patMatch prompt
+      = if determineCurrent (matchOf notContains patMatch) o L prompt = [] then ([], some "ErrPrivilegeError")
+        else (determineCurrent (matchOf notContains patMatch) o L prompt, none) := by
+  unfold Gen.Bodies.Priv.determineCurrentPriv Go.forRange determineCurrent
+  dsimp only
+  rw [determine_loop]
+  simp only [List.nil_append]
+  generalize ((o.lv L).filter fun l => matchOf notContains patMatch l prompt).map (·.name) = r
+  cases r <;> simp [Go.len]
+  omega
+
+/-- … which is the contract `generated_processAcquirePriv_eq` assumes of it -/
+theorem generated_determineCurrentPriv_contract (notContains : Level → List Bytes)
+    (patMatch : Level → Bytes → Bool) (o : Orders) (L : Levels) (prompt : Bytes) :
+    let r := Gen.Bodies.Priv.determineCurrentPriv (o.lv L) notContains patMatch prompt
+    let possible := determineCurrent (matchOf notContains patMatch) o L prompt
+    r.1 = possible ∧ (possible = [] → r.2 ≠ none) ∧ (possible ≠ [] → r.2 = none) := by
+  simp only [generated_determineCurrentPriv_eq]
+  by_cases h : determineCurrent (matchOf notContains patMatch) o L prompt = [] <;> simp [h]
+
 end Scrapli.Priv.C04
